@@ -45,6 +45,11 @@ async fn main() {
         ("Alice's own operation with inconsistent header (backlink at seq 0)", op(&alice, alice.verifying_key(), 0, Some(Hash::digest(b"x")), b"bad")),
         ("stored operation of Alice re-sent with its id, key and signature kept but seq_num rewritten to 100 (signature no longer matches)", { let mut o = chain[2].clone(); o.header.seq_num = 100; o }),
         ("stored operation of Alice re-sent with its id kept but another body and payload hash", { let mut o = chain[3].clone(); let b = Body::new(b"other"); o.header.payload_hash = Some(b.hash()); o.header.payload_size = b.size(); o.body = Some(b); o }),
+        // forgeries that wear the id of an entry Alice's log already holds (the `hash` field of an Operation is chosen by the
+        // sender; it is not covered by the signature check of the header)
+        ("forged signature claiming Alice, seq 6 (head + 1), wrapped under the id of Alice's current head", { let mut o = op(&mallory, alice.verifying_key(), 6, Some(chain[5].hash), b"forged"); o.hash = chain[5].hash; o }),
+        ("forged signature claiming Alice, seq 100, wrapped under the id of Alice's current head", { let mut o = op(&mallory, alice.verifying_key(), 100, Some(chain[5].hash), b"forged"); o.hash = chain[5].hash; o }),
+        ("forged signature claiming Alice, seq 3, wrapped under the id of Alice's stored entry 3", { let mut o = op(&mallory, alice.verifying_key(), 3, Some(chain[2].hash), b"forged"); o.hash = chain[3].hash; o }),
     ];
     for (label, attack) in &attacks {
         let store = SqliteStore::temporary().await;
@@ -81,6 +86,6 @@ async fn main() {
         }
     }
     println!("{}", json!({"summary": true, "evaluations": n, "distinct_nontrivial": n, "exhaustive": false,
-        "rule": "4 invalid prune-flagged operations (forged signature x2, corrupted body, inconsistent header) against a stored 6-entry log + 1 valid prune; oracle = log contents unchanged by invalid operations / exact scope for the valid one",
-        "bound": "5 scenarios", "samples": [{"attack": "forged signature claiming Alice, seq 4"}], "violating_classes": reported}));
+        "rule": "9 invalid prune-flagged operations (forged signature x2, corrupted body, inconsistent header, re-sent stored entries with rewritten fields x2, forgeries wrapped under the id of a stored entry x3) against a stored 6-entry log + 1 valid prune; oracle = log contents unchanged by invalid operations / exact scope for the valid one",
+        "bound": "10 scenarios", "samples": [{"attack": "forged signature claiming Alice, seq 4"}], "violating_classes": reported}));
 }
